@@ -46,6 +46,10 @@ type caseT struct {
 }
 
 var rt = router.MustNew()
+
+// rtDiag is configured with a diagnostics handler (the documented way to observe blocked header injections)
+var rtDiag = router.MustNew(router.WithDiagnostics(router.DiagnosticHandlerFunc(func(e router.DiagnosticEvent) { diagEvents++ })))
+var diagEvents int
 var script func(c *router.Context)
 
 func init() {
@@ -53,6 +57,9 @@ func init() {
 	rt.GET("/c19", func(c *router.Context) { script(c) })
 	rt.HEAD("/c19", func(c *router.Context) { script(c) })
 	rt.GET("/c19p/:seg/end", func(c *router.Context) { script(c) })
+	rtDiag.GET("/c19", func(c *router.Context) { script(c) })
+	rtDiag.GET("/c19p/:seg/end", func(c *router.Context) { script(c) })
+	rtDiag.Warmup()
 	rt.Warmup()
 }
 
@@ -91,14 +98,18 @@ func canary() string {
 }
 
 // serveAt is serve on another request path (escaped form; "" = /c19).
-func serveAt(path string, f func(c *router.Context)) *httptest.ResponseRecorder {
+func serveAt(path string, diag bool, f func(c *router.Context)) *httptest.ResponseRecorder {
 	if path == "" {
 		path = "/c19"
 	}
 	req := httptest.NewRequest(http.MethodGet, path, nil)
 	rec := httptest.NewRecorder()
 	script = f
-	rt.ServeHTTP(rec, req)
+	if diag {
+		rtDiag.ServeHTTP(rec, req)
+	} else {
+		rt.ServeHTTP(rec, req)
+	}
 	return rec
 }
 
